@@ -43,6 +43,8 @@ def main(prop):
     from vlib import ch
     from checks import leafharness
 
+    if prop in ("C01", "C07"):
+        lemmas.repo_pairs_validation(run)
     leaves = {"C01": leafharness.c01_leaves, "C02": leafharness.c02_leaves}.get(prop)
     if leaves:
         hs = leaves(tier())
